@@ -5,7 +5,14 @@ cd "$(dirname "$(readlink -f "$0")")/.." || exit 2
 python3 - <<'P'
 import json, glob, subprocess, os
 res=[]
+import sys
+flt=os.environ.get('SEED_FILTER','')
+old={r['name']:r for r in (json.load(open('seeded/RESULTS.json')) if os.path.exists('seeded/RESULTS.json') else [])}
 for d in sorted(glob.glob('seeded/*/')):
+    if flt and flt not in d:
+        nm=os.path.basename(d.rstrip('/'))
+        if nm in old: res.append(old[nm])
+        continue
     name=os.path.basename(d.rstrip('/'))
     meta=json.load(open(d+'meta.json'))
     pid=meta['property']
